@@ -331,13 +331,60 @@ func scenarios(thorough bool) []scen {
 	return s
 }
 
+// grid: the product of workers x (count, byte) limits x adder shapes x event sizes/kinds x Stop x adder gap; bound 1
+// in the quick tier (every single deviation of the base schedule), bound 2 in the thorough tier.
+func grid(bound int) []scen {
+	var out []scen
+	type lim struct{ count, bytes int }
+	sizes := map[string][]evSpec{
+		"ones":     {{1, kRegular}, {1, kRegular}, {1, kRegular}},
+		"big-mid":  {{1, kRegular}, {5, kRegular}, {1, kRegular}},
+		"children": {{0, kChild}, {0, kChild}, {0, kChild}},
+		"kinds":    {{1, kParent}, {0, kChild}, {1, kRegular}},
+	}
+	names := []string{"ones", "big-mid", "children", "kinds"}
+	shapes := [][]int{{3}, {2}, {2, 1}}
+	for _, workers := range []int{1, 2} {
+		for _, l := range []lim{{1, 0}, {2, 0}, {3, 0}, {0, 4}, {2, 4}} {
+			for si, shape := range shapes {
+				for _, sn := range names {
+					for _, stop := range []bool{false, true} {
+						for _, gap := range []time.Duration{0, 150 * time.Millisecond} {
+							var adders [][]evSpec
+							k := 0
+							for _, n := range shape {
+								var l []evSpec
+								for i := 0; i < n; i++ {
+									l = append(l, sizes[sn][k%3])
+									k++
+								}
+								adders = append(adders, l)
+							}
+							out = append(out, scen{name: fmt.Sprintf("grid-w%d-c%db%d-s%d-%s-stop%v-gap%d", workers, l.count, l.bytes, si, sn, stop, gap/time.Millisecond),
+								workers: workers, count: l.count, bytes: l.bytes, adders: adders, stop: stop, gap: gap, bound: bound})
+						}
+					}
+				}
+			}
+		}
+	}
+	return out
+}
+
 func TestVerif(t *testing.T) {
 	vplug.Quiet()
 	r := vreport.Start("C08")
 	defer r.Finish()
 	r.Rule("every execution of each scenario within the deviation bound of the base schedule (preemptions, non-default wake-ups, timer landings); non-trivial = executions with >=1 deviation and a scheduling trace not seen before; states = distinct (batch composition, commit order) observations")
 	var scs []vexplore.Scenario
-	for _, sc := range scenarios(r.Thorough()) {
+	all := scenarios(r.Thorough())
+	if r.Thorough() {
+		all = append(all, grid(2)...)
+	} else {
+		all = append(all, grid(1)...)
+	}
+	r.Bound("scenarios", len(all))
+	for _, sc := range all {
 		sc := sc
 		scs = append(scs, vexplore.Scenario{
 			Name: "batcher:" + sc.name, Bound: sc.bound, Horizon: 5 * time.Second,
